@@ -186,6 +186,8 @@ def opaque_types(texts):
     return out
 
 
+NEVER_FALSE = {'C': ('cal.py', 'Component')}     # opaque type -> the class whose __bool__ must be `return True`
+
 RECORDS = {  # attribute reads: type -> attr -> (lean projection, type)
     'TD': {'days': ('days', 'Int'), 'seconds': ('secondsI', 'Int')},
     'PyDate': {k: (k, 'Int') for k in ('year', 'month', 'day')},
@@ -413,7 +415,9 @@ def assigned(nodes):
     for s in nodes:
         for n in ast.walk(s):
             name = n.id if isinstance(n, ast.Name) and isinstance(n.ctx, ast.Store) else \
-                n.func.value.id if is_append(n) else "out'" if isinstance(n, ast.Yield) else None
+                n.func.value.id if is_append(n) else "out'" if isinstance(n, ast.Yield) else \
+                n.targets[0].value.id if isinstance(n, ast.Assign) and len(n.targets) == 1 and isinstance(n.targets[0], ast.Attribute) \
+                and isinstance(n.targets[0].value, ast.Name) and n.targets[0].value.id != 'self' else None
             if name is not None and name not in out:
                 out.append(name)
     return out
@@ -555,6 +559,29 @@ class Fn:
 
     # ------------------------------------------------------------ expressions
 
+    def never_false(self, typ, node):
+        """`if x:` on an optional object tests for None only when the object itself is never false: the class must
+        define `__bool__` as `return True` (looked up in the source on every run)"""
+        where = NEVER_FALSE.get(typ)
+        if where is None:
+            self.fail(node, f'truthiness of an object of the opaque type {typ}')
+        tree = X.parse(os.path.join(self.src_dir, where[0]))
+        for c in ast.walk(tree):
+            if isinstance(c, ast.ClassDef) and c.name != where[1]:
+                for st in c.body:
+                    if isinstance(st, ast.FunctionDef) and st.name in ('__bool__', '__len__'):
+                        self.fail(node, f'truthiness of a {where[1]}: class {c.name} of {where[0]} defines {st.name}')
+        for c in ast.walk(tree):
+            if isinstance(c, ast.ClassDef) and c.name == where[1]:
+                for st in c.body:
+                    if isinstance(st, ast.FunctionDef) and st.name == '__bool__':
+                        body = [b for b in st.body if not (isinstance(b, ast.Expr) and isinstance(b.value, ast.Constant))]
+                        if len(body) == 1 and isinstance(body[0], ast.Return) and isinstance(body[0].value, ast.Constant) \
+                                and body[0].value.value is True:
+                            return
+                        self.fail(node, f'truthiness of a {where[1]}: its __bool__ is not `return True`')
+        self.fail(node, f'truthiness of a {where[1]}: the class defines no __bool__ (a mapping without items is false)')
+
     def truth(self, v, node):
         if v.type == 'Bool':
             return v.lean
@@ -567,7 +594,8 @@ class Fn:
         if v.type.startswith('List:'):
             return f'(!{v.lean}.isEmpty)'
         if v.type.startswith('Opt:'):
-            return f'{v.lean}.isSome'       # the objects themselves are never false (Component.__bool__ is True)
+            self.never_false(v.type[4:], node)
+            return f'{v.lean}.isSome'
         if v.type == 'D':
             return 'true'       # a date / datetime object is never false
         self.fail(node, f'truthiness of a value of type {v.type}')
@@ -582,6 +610,7 @@ class Fn:
             if isinstance(g0, ast.Name) and g0.id in env and env[g0.id].type.startswith('Opt:') and len(node.values) == 2:
                 x = self.narrow.get(env[g0.id].lean, env[g0.id])
                 if x.type.startswith('Opt:'):       # `not c or E` / `c and E`: E is evaluated only when c is an object
+                    self.never_false(x.type[4:], node)
                     self.fresh += 1
                     v = f"n{self.fresh}'"
                     old = dict(self.narrow)
@@ -607,7 +636,7 @@ class Fn:
         return self.truth(v, node)
 
     def expr(self, node, env):
-        whole = self.t.externals.get(ast.unparse(node)) if isinstance(node, (ast.Call, ast.Subscript, ast.Attribute)) else None
+        whole = self.t.externals.get(ast.unparse(node)) if isinstance(node, (ast.Call, ast.Subscript, ast.Attribute, ast.Compare)) else None
         if whole is not None and whole[0] == 'expr' and whole[1] is None:
             return V('()', whole[3], None)      # an external value that the translated code never looks at
         if whole is not None and whole[0] in ('expr', 'pexpr'):        # an expression that stays external, as a whole
@@ -713,7 +742,7 @@ class Fn:
 
     def e_List(self, node, env):
         vals = [self.expr(e, env) for e in node.elts]
-        if vals and len({v.type for v in vals}) == 1 and re.fullmatch(r'[A-Z][A-Za-z]*', vals[0].type) and vals[0].type not in LEAN_TYPE:
+        if vals and len({v.type for v in vals}) == 1 and re.fullmatch(r'[A-Z][A-Za-z]*', vals[0].type) and vals[0].type not in LEAN_TYPE and vals[0].type != 'Tuple':
             return V('[' + ', '.join(v.lean for v in vals) + ']', 'List:' + vals[0].type, None)     # objects of one opaque type
         if vals and all(v.type == 'Tuple' for v in vals):
             return V('([' + ', '.join(self.as_item(v, node).lean for v in vals) + '] : List PyItem)', 'ItemList', None)
@@ -1372,18 +1401,18 @@ class Fn:
             # statements after a `return` never run (they are there when the rest of the function was appended to
             # a branch that already returned): dropped
             v = self.expr(s.value, env)
-            if v.type == 'Tuple' and all(e.type != 'Tuple' for e in v.elts):       # a tuple display of values
-                self.rtype_lean = ' × '.join(lean_type(e.type) for e in v.elts)
-                v = V('(' + ', '.join(e.lean for e in v.elts) + ')', 'Tuple:' + self.rtype_lean, None)
-            elif v.type not in ('Str', 'Bytes', 'Int', 'Bool', 'TD', 'PyDate', 'PyTime', 'PyDateTime', 'StrList', 'D', 'OptD', 'DList', 'ATList', 'CompList', 'ItemList', 'StepOut') \
-                    and not v.type.startswith('Result:'):
-                self.fail(s, f'return of a value of type {v.type}')
             if (self.t.ret or '').startswith('Result:'):
                 rt = self.t.ret[7:]
                 if v.type == rt:
                     v = V(f'(PyResult.one {v.lean})', self.t.ret, None)
                 elif v.type == 'List:' + rt:
                     v = V(f'(PyResult.many {v.lean})', self.t.ret, None)
+            if v.type == 'Tuple' and all(e.type != 'Tuple' for e in v.elts):       # a tuple display of values
+                self.rtype_lean = ' × '.join(lean_type(e.type) for e in v.elts)
+                v = V('(' + ', '.join(e.lean for e in v.elts) + ')', 'Tuple:' + self.rtype_lean, None)
+            elif v.type not in ('Str', 'Bytes', 'Int', 'Bool', 'TD', 'PyDate', 'PyTime', 'PyDateTime', 'StrList', 'D', 'OptD', 'DList', 'ATList', 'CompList', 'ItemList', 'StepOut') \
+                    and not v.type.startswith('Result:'):
+                self.fail(s, f'return of a value of type {v.type}')
             if self.t.ret == 'OptD' and v.type == 'D':       # a present value where the function returns an optional
                 v = V(f'(some {v.lean})', 'OptD', None)
             if self.rtype not in (None, v.type) or (self.t.ret is not None and v.type != self.t.ret):
@@ -1528,8 +1557,9 @@ class Fn:
         if isinstance(test, ast.Compare) and len(test.ops) == 1 and isinstance(test.ops[0], (ast.Is, ast.IsNot)) \
                 and isinstance(test.comparators[0], ast.Constant) and test.comparators[0].value is None:
             x, present = test.left, isinstance(test.ops[0], ast.IsNot)
+            by_truth = False
         else:
-            x, present = test, True
+            x, present, by_truth = test, True, True
         if not isinstance(x, (ast.Name, ast.Attribute)) or (isinstance(x, ast.Name) and x.id in self.slots):
             return None
         if isinstance(x, ast.Name) and (x.id not in env or x.id == 'self'):
@@ -1537,6 +1567,10 @@ class Fn:
         if isinstance(x, ast.Attribute) and not (ast.unparse(x).startswith('self.') and ast.unparse(x)[5:] in self.t.self_attrs):
             return None
         v = self.expr(x, env)
+        if v.type.startswith('Opt:') and (v.elts is not None or re.fullmatch(r"[A-Za-z_][\w']*", v.lean)):
+            if by_truth:
+                self.never_false(v.type[4:], test)
+            return v, present != neg
         if v.type not in ('OptD', 'OptTDS', 'OptStr') or not re.fullmatch(r"[A-Za-z_][\w']*", v.lean):
             return None
         return v, present != neg
@@ -1735,7 +1769,7 @@ class Fn:
             old = dict(self.narrow)
             some_b, none_b = (s.body, s.orelse) if present_first else (s.orelse, s.body)
             nb = self.block(none_b + rest, env, tail)
-            self.narrow[x.lean] = V(v, {'OptD': 'D', 'OptTDS': 'TDS', 'OptStr': 'Str'}[x.type], None)
+            self.narrow[x.lean] = V(v, x.type[4:] if x.type.startswith('Opt:') else {'OptD': 'D', 'OptTDS': 'TDS', 'OptStr': 'Str'}[x.type], None)
             try:
                 sb = self.block(some_b + rest, env, tail)
             finally:
@@ -1911,6 +1945,8 @@ class Fn:
                         lst = next((v.elts[1] for k, v in self.alias_in(s.body).items() if k == root.id), None)
                     if lst is not None and lst not in asg:
                         asg.append(lst)
+        stored = {n.id for st in s.body for n in ast.walk(st) if isinstance(n, ast.Name) and isinstance(n.ctx, ast.Store)}
+        asg = [n for n in asg if not (n in targets and n not in stored)]    # `v.attr = x` on the loop variable: local to the iteration
         if targets & set(asg):
             self.fail(s, 'the loop body assigns the loop variable')
         state = [n for n in asg if n in env and n not in targets]
@@ -1954,6 +1990,10 @@ class Fn:
             if re.fullmatch(r"[A-Za-z_][\w']*", n) and n not in inner and word(n) and n not in [c[0] for c in caps]:
                 caps.append((n, typ))
         capsig = ('«EXTSIG»' if self.objself else '') + ''.join(f' ({n} : {lean_type(t)})' for n, t in caps)
+        if self.t.group == 'parse':     # the opaque types the loop mentions
+            ops = opaque_types([lean_type(t) for _, t in caps] + [lean_type(slots[n]) for n in state]
+                               + ([lean_type(itv.type)] if itv is not None else []))
+            capsig = ''.join(f' {{{o} : Type}}' for o in ops) + capsig
         capargs = ('«EXT»' if self.objself else '') + ''.join(' ' + n for n, _ in caps)
         body = [ln.replace(' «CAP»', capargs) for ln in body]
         sigma = [lean_type(slots[n]) for n in state] + (['Option Int'] if last else [])
